@@ -443,6 +443,28 @@ def drv_c09(tier, rng):
     histories: the same request again after other requests must be answered identically"""
     P = pipeline.PU
     groups = []
+    # (these come first: a component polluted by an error path stays polluted for the rest of the process, so only the
+    # first sandwich of a kind can show the difference)
+    # error paths: every kind of rejected request, sandwiched between two copies of a valid request that exercises the
+    # same component while relying on its defaults (no ordering, no reference type, no bounding ...)
+    DEFAULTS = {'criteriaOmission': {'ratio': P // 2}, 'preferenceReversal': {'ratio': P // 2},
+                'fatigue': {'function': 'const', 'params': {'value': P // 4}, 'randomSeed': 4},
+                'criteriaConcealment': {'randomSeed': 4}, 'criteriaMixing': {'randomSeed': 4}}
+    for mth in (pipeline.METHODS if tier == 'thorough' else rng.sample(pipeline.METHODS, 3)):
+        base = pipeline.gen_data(rng, mth, n=3, m=4, extra=1)
+        for label, bad, exp, kw in list(service.bias_mutations(rng, base)) + list(service.mutations(rng, base)):
+            if exp != 'reject':
+                continue
+            a = copy.deepcopy(base)
+            names = [b['name'] for b in bad.get('biases', []) if b.get('name') in DEFAULTS]
+            for nm in names[:1]:
+                a['biases'] = [{'name': nm, 'props': copy.deepcopy(DEFAULTS[nm])}]
+            if not names and bad.get('biases') and bad['biases'][0].get('name') == 'anchoring':
+                a['biases'] = [pipeline.gen_bias(rng, 'anchoring', a, 3)]
+            g = [pcase(a, via='lib', failprop='C09', group={'id': 'x', 'rel': 'samereq', 'p': 'C09'}),
+                 pcase(bad, via='lib', failprop='C09', expect='any', group={'id': 'x', 'rel': 'samereq', 'p': 'C09'}),
+                 pcase(copy.deepcopy(a), via='lib', failprop='C09', group={'id': 'x', 'rel': 'samereq', 'p': 'C09'})]
+            groups.append(g)
     N = 40 if tier == 'quick' else 600
     for _ in range(N):
         hist = []
@@ -470,9 +492,13 @@ def drv_c09(tier, rng):
             if first is None:
                 first = req
             hist.append(req)
+        if rng.random() < 0.5:      # a rejected request in between must not leave anything behind either
+            bad = rng.choice(list(service.bias_mutations(rng, first)) + list(service.mutations(rng, first)))
+            hist.insert(rng.randint(1, len(hist)), dict(bad[1], _expect=bad[2]))
         hist.append(copy.deepcopy(first))
         via = rng.choice(['lib', 'libexact'])
-        g = [pcase(r, via=via, failprop='C09', group={'id': 'x', 'rel': 'samereq', 'p': 'C09'}) for r in hist]
+        g = [pcase({k: v for k, v in r.items() if k != '_expect'}, via=via, failprop='C09', expect=('any' if '_expect' in r else 'ok'),
+                   group={'id': 'x', 'rel': 'samereq', 'p': 'C09'}) for r in hist]
         groups.append(g)
     return groups
 
@@ -545,6 +571,10 @@ def conc_pool(rng):
             pool[k].append(pipeline.pipeline_case(rng, mth, [rng.choice(pipeline.BIASES) for _ in range(k)]))
     bad = pipeline.pipeline_case(rng, 'weightedSum', [])
     bad['methodParameters']['weights'].pop(bad['criteria'][0]['id'])
+    # further rejected requests (unknown names, out-of-range options): error paths run next to valid requests
+    base = pipeline.gen_data(rng, 'majorityHeuristic', n=3, m=3, extra=1)
+    rej = [m[1] for m in list(service.bias_mutations(rng, base)) + list(service.mutations(rng, base)) if m[2] == 'reject']
+    pool[0].extend(rng.sample(rej, min(8, len(rej))))
     return pool, bad
 
 
@@ -628,7 +658,8 @@ def drv_repeat(tier, rng):
                     nud.append({'alt': a['id'], 'crit': c, 'k': rng.choice([0, 1, 2, 3, 5]), 'e': 20})
             rid += 1
             groups.append([{'fam': 'repeat', 'unit': pipeline.PU, 'rid': 'r%d' % rid, 'req': req, 'nudge': nud, 'repeat': 12 if tier == 'quick' else 40}])
-    for c in service.catalogue('quick', rng)[:200:3]:
+    # rejected and unusual requests of the service catalogue, interleaved: error paths must not leave anything behind
+    for c in [c for c in service.catalogue('quick', rng) if c['label'] != 'bytes'][::2 if tier == 'quick' else 1]:
         rid += 1
         c = dict(c, rid='r%d' % rid, repeat=2)
         groups.append([c])
